@@ -64,13 +64,16 @@ def printTy (sp : Bool) : Ty → Bytes → Bytes
   | .map t, tl => tMap ++ printTy sp t tl
   | .struct fs, tl => 40 :: printFields sp fs tl             -- '(' … ')'
   | .enum fs, tl => 40 :: printFields sp fs tl
-/-- the fields and the closing parenthesis -/
+/-- behind `(`: the fields and the closing parenthesis -/
 def printFields (sp : Bool) : Fields → Bytes → Bytes
   | .nil, tl => 41 :: tl
-  | .typed n t .nil, tl => n ++ 58 :: sep sp (printTy sp t (41 :: tl))
-  | .bare n .nil, tl => n ++ 41 :: tl
-  | .typed n t r, tl => n ++ 58 :: sep sp (printTy sp t (44 :: sep sp (printFields sp r tl)))
-  | .bare n r, tl => n ++ 44 :: sep sp (printFields sp r tl)
+  | .typed n t r, tl => n ++ 58 :: sep sp (printTy sp t (printMore sp r tl))
+  | .bare n r, tl => n ++ printMore sp r tl
+/-- behind a field: `)` or `,` and the remaining fields -/
+def printMore (sp : Bool) : Fields → Bytes → Bytes
+  | .nil, tl => 41 :: tl
+  | .typed n t r, tl => 44 :: sep sp (n ++ 58 :: sep sp (printTy sp t (printMore sp r tl)))
+  | .bare n r, tl => 44 :: sep sp (n ++ printMore sp r tl)
 end
 
 def printMember (sp : Bool) : Member → Bytes → Bytes
